@@ -69,6 +69,15 @@ type Store struct {
 	// crash check to exercise a service provider built from arbitrary metadata).
 	Fallback *serviceprovider.ServiceProvider
 	Lenient  bool
+	// ResponseKeyName names the key pair GetResponseSigningKey hands out ("" = idp-response); changing it models a key roll-over.
+	ResponseKeyName string
+}
+
+// RotateResponseKey makes the storage hand out another response-signing key pair from now on.
+func (s *Store) RotateResponseKey(name string) {
+	s.mu.Lock()
+	s.ResponseKeyName = name
+	s.mu.Unlock()
 }
 
 func lenientKey(id string) string {
@@ -254,7 +263,11 @@ func (s *Store) GetMetadataSigningKey(context.Context) (*key.CertificateAndKey, 
 func (s *Store) GetResponseSigningKey(context.Context) (*key.CertificateAndKey, error) {
 	s.mu.Lock()
 	defer s.mu.Unlock()
-	return s.keyResult("GetResponseSigningKey", "idp-response")
+	name := s.ResponseKeyName
+	if name == "" {
+		name = "idp-response"
+	}
+	return s.keyResult("GetResponseSigningKey", name)
 }
 
 func (s *Store) GetEntityByID(_ context.Context, entityID string) (*serviceprovider.ServiceProvider, error) {
